@@ -48,6 +48,18 @@ theorem ids_unique_joint (counter : Nat) (apis : List Bool) (h : apis.length ≤
     ((allocSeq counter apis).map (·.2)).Nodup := by
   rw [allocSeq_ids]; exact allocIds_nodup counter _ h
 
+theorem allocThreads_ids (sched : List Nat) : ∀ c, (allocThreads c sched).map (·.2) = allocIds c sched.length := by
+  induction sched with
+  | nil => intro c; rfl
+  | cons th rest ih => intro c; simp only [allocThreads, List.map_cons, List.length_cons, allocIds, ih]
+
+/-- **Several threads, one counter.** Whatever the order in which the `fetch_add`s of any number of threads creating timers
+    (through either API, in any number of cores) take effect, the ids handed out in the process are pairwise distinct —
+    in particular two timers created on DIFFERENT threads never share an id. -/
+theorem ids_unique_across_threads (counter : Nat) (sched : List Nat) (h : sched.length ≤ 18446744073709551616) :
+    ((allocThreads counter sched).map (·.2)).Nodup := by
+  rw [allocThreads_ids]; exact allocIds_nodup counter _ h
+
 /-- … and on the model of ONE app that starts timers through both APIs (host `mixed`): after every history — starts
     of legacy and command-API timers in any order, with polls, fires, clears, drops and (late / duplicate / wrong)
     responses in between — no two timers, of whichever APIs, have the same id, and every id is below the shared counter.
